@@ -7,6 +7,7 @@ import Aegean.Model.C05
 
   gauss <x> <y> <amp> <xo> <yo> <sx> <sy> <theta>     the regenerated `elliptical_gaussian`
   pos <xo> <yo> <xmin> <ymin>                         xoLocal yoLocal, then xPix yPix of those (round trip)
+  accept <x> <y> <n0> <n1> <dataFinite 0/1> <rmsFinite 0/1> <beamNone 0/1>     the regenerated acceptance decision
   vary <stage>                                        amp xo yo sx sy theta flags copyPosErr copyShapeErr (0/1)
   island <stage> <n0> <n1> (<uuid> <flags> <x> <y> <xwidth> <ywidth> <finite 0/1>)*
         the whole island logic with the optimiser replaced by the identity (on a noise-free model image
@@ -66,6 +67,10 @@ def handle (ws : List String) : String :=
       let yl := Gen.C05.yoLocal xo yo xmin ymin
       s!"{showFloat xl} {showFloat yl} {showFloat (Gen.C05.xPix xl yl xmin ymin)} {showFloat (Gen.C05.yPix xl yl xmin ymin)}"
     | _ => "bad-op"
+  | ["accept", x, y, n0, n1, d, r, b] =>
+    match x.toInt?, y.toInt?, [n0, n1, d, r, b].mapM String.toNat? with
+    | some x, some y, some [n0, n1, d, r, b] => if Gen.C05.rejectSrc x y n0 n1 d r b then "reject" else "accept"
+    | _, _, _ => "bad-op"
   | ["vary", stage] =>
     match stage.toNat? with
     | some s =>
